@@ -341,7 +341,7 @@ uint32_t DNS::compose_name(const uint8_t* ptr, char* out_ptr) const {
     const uint8_t* end_ptr = 0;
     char* current_out_ptr = out_ptr;
     uint8_t pointer_counter = 0;
-    while (*ptr) {
+    while (ptr < end && *ptr) {
         if (pointer_counter++ > 30){
             throw dns_decompression_pointer_loops();
         }
@@ -379,6 +379,10 @@ uint32_t DNS::compose_name(const uint8_t* ptr, char* out_ptr) const {
             current_out_ptr += size;
             ptr += size;
         }
+    }
+    // The name has to be terminated inside the records data
+    if (TINS_UNLIKELY(ptr >= end)) {
+        throw malformed_packet();
     }
     // Add the null terminator.
     *current_out_ptr = 0;
